@@ -44,6 +44,7 @@ var statements = []string{
 	"LOOKUP tag-keys",
 	"LOOKUP tag-values",
 	"LOOKUP measurements",
+	"STORAGE read-filter",
 }
 
 var layouts = []string{"as-created", "late-joined-empty-coordinator", "every-second-shard-copied-to-the-last-node"}
@@ -187,6 +188,8 @@ func body(t *testing.T, maxNodes int, thorough bool) func(tp *explore.Tape) expl
 			})
 			if kind, ok := strings.CutPrefix(stmt, "LOOKUP "); ok {
 				rows, qerr = c.Lookup(coord, kind)
+			} else if stmt == "STORAGE read-filter" {
+				rows, qerr = c.StorageRead(coord)
 			} else {
 				rows, qerr = c.Query(coord, stmt)
 			}
@@ -214,6 +217,15 @@ func body(t *testing.T, maxNodes int, thorough bool) func(tp *explore.Tape) expl
 		}
 		out.Obs = fmt.Sprintf("err=%v shardsOK=%v", qerr != nil, shardsOK)
 		switch {
+		case stmt == "STORAGE read-filter" && qerr == nil && rows != want:
+			out.Violation = fmt.Sprintf("the storage read returned no error but an incomplete or wrong result:\n%s\nexpected (single node with all data):\n%s", rows, want)
+			out.Sig = "storage-read-silent-partial:" + faultsUsed(fk, coord)
+			if midStream {
+				out.Sig = "storage-read-silent-truncated-stream"
+			}
+		case stmt == "STORAGE read-filter" && qerr != nil && shardsOK && !midStream:
+			out.Violation = fmt.Sprintf("every shard has a healthy owner, but the storage read failed: %v", qerr)
+			out.Sig = "storage-read-failed-although-owners-available:" + faultsUsed(fk, coord)
 		case strings.HasPrefix(stmt, "LOOKUP ") && qerr == nil && rows != want:
 			out.Violation = fmt.Sprintf("the lookup returned no error but an incomplete or wrong answer:\n%s\nexpected (single node with all data):\n%s", rows, want)
 			out.Sig = "lookup-silent-partial:" + strings.TrimPrefix(stmt, "LOOKUP ")
@@ -287,6 +299,8 @@ func referenceRows(t *testing.T, stmt string) string {
 		var r string
 		if kind, ok := strings.CutPrefix(stmt, "LOOKUP "); ok {
 			r, err = c.Lookup(0, kind)
+		} else if stmt == "STORAGE read-filter" {
+			r, err = c.StorageRead(0)
 		} else {
 			r, err = c.Query(0, stmt)
 		}
